@@ -8,6 +8,7 @@ Undetected survivors (survived and fired == {}) are the list to read."""
 import argparse, json, os, shutil, subprocess, sys, tempfile, threading, queue, signal, time
 
 HERE = os.path.dirname(os.path.dirname(os.path.abspath(__file__)))
+FLAKY = {"graph::tests::stat_mtime_resolution", "graph::stat_mtime_resolution"}
 
 
 def sh(cmd, cwd, timeout, env=None):
@@ -54,7 +55,20 @@ def worker(wid, q, outf, lock, seed_target):
                 elif "error: could not compile" in out or "error[E" in out or "error: aborting" in out:
                     res = dict(m, outcome="nocompile")
                 elif rc != 0 or "test result: FAILED" in out or out.count("test result: ok") < 2:
-                    res = dict(m, outcome="killed-by-tests")
+                    failed = sorted({l.split()[1] for l in out.splitlines() if l.startswith("test ") and l.rstrip().endswith("FAILED")})
+                    if failed and set(failed) <= FLAKY:
+                        # wall-clock assertions that trip under load: run once more before believing the kill
+                        rc, out = sh(["cargo", "test", "--offline", "--no-fail-fast"], repo, 240, env)
+                        failed = sorted({l.split()[1] for l in out.splitlines() if l.startswith("test ") and l.rstrip().endswith("FAILED")})
+                    if rc == 0 and "test result: FAILED" not in out and out.count("test result: ok") >= 2:
+                        p = subprocess.run([sys.executable, os.path.join(HERE, "tools", "check_all.py"), "--repo", repo], env=env, capture_output=True, text=True)
+                        try:
+                            fired = json.loads(p.stdout)
+                        except Exception:
+                            fired = {"_error": (p.stdout + p.stderr)[-300:]}
+                        res = dict(m, outcome="survived", fired=fired)
+                    else:
+                        res = dict(m, outcome="killed-by-tests", failed=failed[:6])
                 else:
                     p = subprocess.run([sys.executable, os.path.join(HERE, "tools", "check_all.py"), "--repo", repo], env=env, capture_output=True, text=True)
                     try:
